@@ -68,6 +68,9 @@ CONSTS = [
     ("BITSWAP_MAX_MESSAGE_SIZE", BITSWAP + "config.rs", const("MAX_MESSAGE_SIZE")),
     ("BITSWAP_MAX_BATCH_SIZE", BITSWAP + "config.rs", const("MAX_BATCH_SIZE")),
     ("BITSWAP_EMPTY_MESSAGE_SIZE", BITSWAP + "mod.rs", const("EMPTY_MESSAGE_SIZE")),
+    # C14
+    ("NUM_BUCKETS", KAD + "routing_table.rs", const("NUM_BUCKETS")),
+    ("K_BUCKET", KAD + "bucket.rs", r"if\s+self\.nodes\.len\(\)\s*<\s*(\d+)\s*\{"),
 ]
 
 
